@@ -54,7 +54,11 @@ impl FileWriter {
             
             handle.set_len(file_length)?;
             handle.seek(SeekFrom::Start(file.read_start_position))?;
-            handle.write_all(&result.bytes[segment_start_position..end_position])?;
+            // The matched bytes can be shorter than the segments they must fill (a source that shrank while it was
+            // read): that is an error for this piece, not a reason to panic.
+            let segment_bytes = result.bytes.get(segment_start_position..end_position)
+                .ok_or_else(|| std::io::Error::new(std::io::ErrorKind::UnexpectedEof, "Matched piece data is shorter than the piece."))?;
+            handle.write_all(segment_bytes)?;
 
             drop(_file_write_guard);
         }
